@@ -15,7 +15,7 @@ pub static DEF: PropDef = PropDef {
     rule: "cases: containers E = expand_zlib_chunks(F) for files F from the container generator, fed to \
 recreated_zlib_chunks through instrumented Read/Write objects. (i) fragmentation: generated per-call read sizes \
 (always-1, powers of two +-1, generated cycles; never Ok(0) before EOF) x generated partial-write acceptance patterns: \
-output must equal F. (ii) one injected error (Other, BrokenPipe, WouldBlock, UnexpectedEof, WriteZero; never Interrupted, \
+output must equal F. (ii) one injected error (Other, BrokenPipe, WouldBlock, UnexpectedEof, WriteZero, with short / long ASCII / long multi-byte UTF-8 message payloads; never Interrupted, \
 which std retries by contract) at a source offset or destination offset, or a sink answering Ok(0): for containers \
 <= 4 KiB EVERY source offset 0..|E| and EVERY destination offset 0..|F| is enumerated, larger ones get chunk boundaries \
 +-2 plus 64 generated offsets. If the fault object reports that it fired, the call must return Err without panicking and \
@@ -40,6 +40,18 @@ const KINDS: [ErrorKind; 5] = [
     ErrorKind::WriteZero,
 ];
 
+/// payload text of an injected error: short ASCII, long ASCII, long multi-byte UTF-8 (localized
+/// OS messages, non-ASCII paths) at every byte alignment; chosen by the fault offset
+fn fault_message(off: usize) -> String {
+    match off % 7 {
+        0 | 1 | 2 => "injected fault".to_string(),
+        3 => "x".repeat(300),
+        4 => format!("{}{}", "a".repeat(off % 4), "アクセスが拒否されました。ファイルを開けません: /データ/保存/圧縮ファイル.bin ".repeat(4)),
+        5 => format!("{}{}", "b".repeat(off % 3), "Zugriff verweigert: Datei »/größe/übung/straße.bin« konnte nicht geöffnet werden — ".repeat(4)),
+        _ => format!("{}{}", "c".repeat(off % 5), "😀 permission denied 🚫 ".repeat(12)),
+    }
+}
+
 struct Src<'a> {
     data: &'a [u8],
     pos: usize,
@@ -57,7 +69,7 @@ impl<'a> Read for Src<'a> {
         if let Some((off, kind)) = self.fault {
             if self.pos >= off {
                 self.fired = true;
-                return Err(std::io::Error::new(kind, "injected source fault"));
+                return Err(std::io::Error::new(kind, fault_message(off)));
             }
         }
         let mut n = buf.len().min(self.data.len() - self.pos);
@@ -92,7 +104,7 @@ impl<'a> Write for Dst<'a> {
             if self.accepted.len() >= off {
                 self.fired = true;
                 return match kind {
-                    Some(k) => Err(std::io::Error::new(k, "injected destination fault")),
+                    Some(k) => Err(std::io::Error::new(k, fault_message(off))),
                     None => Ok(0),
                 };
             }
@@ -119,7 +131,7 @@ impl<'a> Write for Dst<'a> {
             if self.accepted.len() >= off {
                 self.fired = true;
                 return match kind {
-                    Some(k) => Err(std::io::Error::new(k, "injected destination fault")),
+                    Some(k) => Err(std::io::Error::new(k, fault_message(off))),
                     None => Ok(0),
                 };
             }
